@@ -41,7 +41,7 @@ impl Weights {
             new: 8,
             clone: 8,
             clone_from: 3,
-            new_uninit_adopted: 1,
+            new_uninit_adopted: 2,
             drop: 16,
             drop_closure: 3,
             store: 16,
